@@ -26,6 +26,7 @@ import sys
 import threading
 import time
 
+from vf.core import hostile_history
 from vf.core.ctx import fp
 from vf.gen import instances, render
 from vf.oracles import modelwalk, ref_decl, ref_sgml
@@ -91,6 +92,9 @@ def make_items(seed, shard, nshards, tier):
                     items.append({"id": f"unordered/{name}/{p}/{q}", "kind": "from_etree", "cls": name, "seedstr": f"{seedstr}/u{q}", "profile": "max", "unordered": True})
     for j in range(8 if tier == "quick" else 40):
         items.append({"id": f"ty/{shard}/{j}", "kind": "types", "seedstr": f"C17t/{seed}/{shard}/{j}"})
+    # harness-written version-1 files in each single-byte character set, with characters that differ between them
+    for j, cs in enumerate(("1252", "ISO-8859-1", "NONE")):
+        items.append({"id": f"cs/{shard}/{cs}", "kind": "charsetdoc", "charset": cs, "seedstr": f"C17c/{seed}/{shard}/{j}"})
     # the SAME texts offered to string elements with different limits (one element per item, so that the order of wide and narrow
     # elements differs between the pristine run, the shuffled runs and the threads)
     strs = string_elements()
@@ -174,6 +178,21 @@ def run_item(item, imm):
             v = dt.convert(text)
             out.append((text, v.isoformat(), dt.unconvert(v), tm.unconvert(tm.convert(text[8:])), str(dec.convert(f"{rng.randint(0, 10**6)},5"))))
         return fp(out)
+    if kind == "charsetdoc":
+        cs = item["charset"]
+        codec = {"1252": "cp1252", "ISO-8859-1": "latin_1", "NONE": "utf_8"}[cs]
+        word = {"cp1252": "caf\u00e9 \u20ac5 \u2019", "latin_1": "caf\u00e9 \u00a1\u00ff", "utf_8": "caf\u00e9 \u6c49 \U0001f600"}[codec]
+        hdr = ("OFXHEADER:100\r\nDATA:OFXSGML\r\nVERSION:102\r\nSECURITY:NONE\r\nENCODING:%s\r\nCHARSET:%s\r\nCOMPRESSION:NONE\r\nOLDFILEUID:NONE\r\nNEWFILEUID:NONE\r\n\r\n"
+               % ("USASCII" if cs != "NONE" else "UNICODE", cs))
+        body = ("<OFX><SIGNONMSGSRSV1><SONRS><STATUS><CODE>0<SEVERITY>INFO<MESSAGE>%s</STATUS><DTSERVER>20200101120000<LANGUAGE>ENG<FI><ORG>%s</FI></SONRS></SIGNONMSGSRSV1></OFX>"
+                % (word, word[:4]))
+        data = hdr.encode("ascii") + body.encode(codec)
+        t = OFXTree()
+        t.parse(io.BytesIO(data))
+        model = t.convert()
+        st = model.signonmsgsrsv1.sonrs.status
+        imm.check("charset-document-decoded-wrongly", word, st.__dict__.get("message"), item)
+        return fp(modelwalk.snap(model, exact=True))
     cls = ref_decl.all_classes()[item["cls"]]
     rng = random.Random(item["seedstr"])
     if kind == "limits":
@@ -327,7 +346,7 @@ def coldthreads_main(argv):
     sys.path.insert(0, os.environ["VF_REPO"])
     from vf.monitors.linemon import LineMon
 
-    items = [it for it in make_items(seed, shard, nshards, tier) if it["kind"] in ("from_etree", "roundtrip", "nagread", "limits")]
+    items = [it for it in make_items(seed, shard, nshards, tier) if it["kind"] in ("from_etree", "roundtrip", "nagread", "limits", "charsetdoc")]
     if only != "-":
         items = [it for it in items if it["id"] == only]
     elif tier == "quick":
@@ -443,6 +462,9 @@ def run_shard(ctx):
         for it in order:
             if it["id"] in crashed:
                 continue
+            if rng.random() < 0.08:
+                hostile_history.disturb(rng)  # broken files (also with contradictory headers) in between: not judged, must not matter
+                ctx.count("broken_documents_in_between")
             try:
                 got = run_item(it, imm)
             except Exception as e:
